@@ -13,6 +13,7 @@ from .. import schema as oai
 from ..utils import PythonIdentifier
 from .errors import ParseError, PropertyError
 from .properties import AnyProperty, Property, Schemas, property_from_data
+from .properties.file import FileProperty
 
 
 class _ResponseSource(TypedDict):
@@ -150,5 +151,9 @@ def response_from_data(  # noqa: PLR0911
 
     if isinstance(prop, PropertyError):
         return prop, schemas
+
+    if isinstance(prop, FileProperty):
+        # A binary schema is built from the raw bytes, whatever the media type says
+        source = BYTES_SOURCE
 
     return Response(status_code=status_code, prop=prop, source=source, data=data), schemas
